@@ -6,6 +6,7 @@
 package gen
 
 import (
+	"fmt"
 	"net"
 
 	"pgregory.net/rapid"
@@ -28,6 +29,7 @@ type G struct {
 	// TruncatedPackets: packet headers may declare more bytes than the frame carries (a packet-in holds
 	// the first miss_send_len / max_len bytes of the packet, its IP and UDP length fields those of the whole)
 	TruncatedPackets bool
+	carved           []carved
 	// CutPackets: the data of a packet-in may end anywhere inside the packet, also inside a protocol header or
 	// before the first byte (OFPCML max_len of a controller action / miss_send_len: "send only the first N
 	// bytes", N = 0 included when the switch buffers the packet). Opt-in per check: the value such a frame
@@ -185,6 +187,37 @@ func (g *G) ListLen(l string, many int) int {
 		return rapid.IntRange(0, many).Draw(g.T, l)
 	}
 	return rapid.IntRange(21, many).Draw(g.T, l)
+}
+
+// Carve returns a copy of b that is the front part of a larger buffer of the
+// caller's: the slice has spare capacity, and the bytes behind it belong to the
+// caller (another note, the next record of a receive buffer). Nothing the
+// library does with the slice may write there; Trespass reports if it did.
+func (g *G) Carve(b []byte) []byte {
+	buf := make([]byte, len(b)+12)
+	copy(buf, b)
+	for i := len(b); i < len(buf); i++ {
+		buf[i] = 0xA5 ^ byte(i)
+	}
+	g.carved = append(g.carved, carved{buf, len(b)})
+	return buf[:len(b)]
+}
+
+type carved struct {
+	buf []byte
+	n   int
+}
+
+// Trespass describes the first carved buffer whose part behind the slice handed to the library was written.
+func (g *G) Trespass() string {
+	for _, c := range g.carved {
+		for i := c.n; i < len(c.buf); i++ {
+			if c.buf[i] != 0xA5^byte(i) {
+				return fmt.Sprintf("a %d-byte slice handed to the library was the front of a %d-byte buffer of the caller's; byte %d of that buffer (behind the slice) was overwritten: %x", c.n, len(c.buf), i, c.buf[c.n:])
+			}
+		}
+	}
+	return ""
 }
 
 func cp(b []byte) []byte {
